@@ -170,7 +170,13 @@ func (msg *Message) RESPBytes() ([]byte, error) {
 			return nil, fmt.Errorf(errorUnknownMessageType, msg.Type)
 		}
 		respBytes.WriteByte(b)
-		respBytes.Write(msg.bytes)
+		// A line cannot carry CR or LF: replaces them with spaces as Redis does.
+		for _, lineByte := range msg.bytes {
+			if lineByte == cr || lineByte == lf {
+				lineByte = ' '
+			}
+			respBytes.WriteByte(lineByte)
+		}
 		respBytes.WriteRune(cr)
 		respBytes.WriteRune(lf)
 	case BulkMessage:
